@@ -125,6 +125,28 @@ def fresh(kind, name):
     return Val(kind, terms)
 
 
+def basic_facts(v):
+    """facts true of every value of the kind: lengths and dimensions are non-negative (stated whenever a value is
+    introduced as a fresh symbol: inputs, havoc at a loop cut, results of contracted calls)"""
+    out = []
+    if v is None or not isinstance(v, Val):
+        return out
+    k = v.kind
+    if isinstance(k, KList):
+        out.append(v.terms[0] >= 0)
+        if isinstance(k.elem, KList):
+            i = z3.Int(uid("bf"))
+            out.append(z3.ForAll([i], z3.Select(v.terms[1], i) >= 0))
+    elif isinstance(k, KArr2):
+        out += [v.terms[0] >= 0, v.terms[1] >= 0]
+    elif isinstance(k, KOpt):
+        out += basic_facts(opt_get(v))
+    elif isinstance(k, KTuple):
+        for it in tuple_items(v):
+            out += basic_facts(it)
+    return out
+
+
 def named(kind, name):
     """Symbol with a stable, readable name (function inputs: used for counter-model read-out)."""
     fl = flat(kind)
